@@ -22,6 +22,31 @@ def shiftPos (m : Mode) : List Nat → List Int → List Int → Option (List In
 section
 variable {K : Type} [Field K] [LinearOrder K] [IsStrictOrderedRing K]
 
+/-- order 1 at an integer coordinate `n`: what `zoom_shift` precomputes along the axis -/
+theorem axisEntry_int {fl : K → Int} (h : IsFloor fl) (m : Mode) (len : Nat) (hlen : 0 < len) (n : Int) :
+    axisEntry fl 1 m len ((n : Int) : K)
+      = (shiftIndex m len n).map fun j => ([j, edgeFold len (j + 1)], [(1 : K), 0]) := by
+  unfold axisEntry
+  rw [mapCoord_int h]
+  unfold shiftIndex
+  rw [← fixOffset_eq_spec m n len (by exact_mod_cast hlen)]
+  by_cases c : 0 ≤ n ∧ n ≤ (len : Int) - 1
+  · have r : List.range (1 + 1) = [0, 1] := rfl
+    obtain ⟨s1, s2⟩ := axisEntry_int1 h len n
+    simp only [c, and_self, if_true, Option.map_some, s1, s2, r, List.map_cons, List.map_nil]
+    rw [edgeFold_inside len (n + ((0 : Nat) : Int)) (by simp; omega) (by simp; omega)]
+    simp
+  · simp only [c, if_false]
+    cases hf : fixOffset m n len with
+    | none => simp
+    | some j =>
+      have rg := fixOffset_range m n len (by exact_mod_cast hlen) j hf
+      have r : List.range (1 + 1) = [0, 1] := rfl
+      obtain ⟨s1, s2⟩ := axisEntry_int1 h len j
+      simp only [Option.map_some, s1, s2, r, List.map_cons, List.map_nil]
+      rw [edgeFold_inside len (j + ((0 : Nat) : Int)) (by simp; omega) (by simp; omega)]
+      simp
+
 /-- the knot entries `zoom_shift` precomputes for an integer shift, order 1 -/
 theorem go_int {fl : K → Int} (h : IsFloor fl) (m : Mode) :
     ∀ (shape : List Nat) (p ds : List Int), (∀ len ∈ shape, 0 < len) → (∀ kk ∈ p, 0 ≤ kk) →
@@ -47,30 +72,36 @@ theorem go_int {fl : K → Int} (h : IsFloor fl) (m : Mode) :
             have e : ((kk.toNat : Nat) : Int) = kk := Int.toNat_of_nonneg hkk
             rw [← Int.cast_natCast, e]
           simp only [coord, this]; push_cast; ring
-        have hax : axisEntry fl 1 m len ((kk - d : Int) : K)
-            = (shiftIndex m len (kk - d)).map fun j => ([j, edgeFold len (j + 1)], [(1 : K), 0]) := by
-          unfold axisEntry
-          rw [mapCoord_int h]
-          unfold shiftIndex
-          rw [← fixOffset_eq_spec m (kk - d) len (by exact_mod_cast hlen)]
-          by_cases c : 0 ≤ kk - d ∧ kk - d ≤ (len : Int) - 1
-          · have r : List.range (1 + 1) = [0, 1] := rfl
-            obtain ⟨s1, s2⟩ := axisEntry_int1 h len (kk - d)
-            simp only [c, and_self, if_true, Option.map_some, s1, s2, r, List.map_cons, List.map_nil]
-            rw [edgeFold_inside len (kk - d + ((0 : Nat) : Int)) (by simp; omega) (by simp; omega)]
-            simp
-          · simp only [c, if_false]
-            cases hf : fixOffset m (kk - d) len with
-            | none => simp
-            | some j =>
-              have rg := fixOffset_range m (kk - d) len (by exact_mod_cast hlen) j hf
-              have r : List.range (1 + 1) = [0, 1] := rfl
-              obtain ⟨s1, s2⟩ := axisEntry_int1 h len j
-              simp only [Option.map_some, s1, s2, r, List.map_cons, List.map_nil]
-              rw [edgeFold_inside len (j + ((0 : Nat) : Int)) (by simp; omega) (by simp; omega)]
-              simp
+        have hax := axisEntry_int h m len hlen (kk - d)
         simp only [List.map_cons, pixel.go, hc, hax, ih', shiftPos]
         cases shiftIndex m len (kk - d) <;> cases shiftPos m ls ks ds <;> simp
+
+/-- the knot entries for a unit zoom (equal input and output lengths), order 1: every position inside the
+    array reads itself -/
+theorem go_unit {fl : K → Int} (h : IsFloor fl) (m : Mode) :
+    ∀ (shape : List Nat) (p : List Int), inside shape p = true →
+      pixel.go fl 1 m shape p (shape.map fun _ => (none : Option K))
+          ((shape.zip shape).map fun io => some (zoomFactor io.1 io.2 : K))
+        = some ((p.zip shape).map fun jl => ([jl.1, edgeFold jl.2 (jl.1 + 1)], [(1 : K), 0])) := by
+  intro shape
+  induction shape with
+  | nil => intro p hp; cases p <;> simp_all [pixel.go, inside]
+  | cons len ls ih =>
+    intro p hp
+    cases p with
+    | nil => simp [inside] at hp
+    | cons kk ks =>
+      simp only [inside, Bool.and_eq_true, decide_eq_true_eq] at hp
+      obtain ⟨⟨h0, h1⟩, h2⟩ := hp
+      have hlen : 0 < len := by omega
+      have hc : coord kk.toNat none (some (zoomFactor len len : K)) = ((kk : Int) : K) := by
+        rw [zoomFactor_unit]
+        have e : ((kk.toNat : Nat) : Int) = kk := Int.toNat_of_nonneg h0
+        rw [← Int.cast_natCast, e]
+      have hax := axisEntry_int h m len hlen kk
+      have c : 0 ≤ kk ∧ kk ≤ (len : Int) - 1 := by omega
+      simp only [shiftIndex, c, and_self, if_true, Option.map_some] at hax
+      simp only [List.map_cons, List.zip_cons_cons, pixel.go, hc, hax, ih ks h2]
 
 end
 
